@@ -150,6 +150,25 @@ func checkC12(c *core.Ctx) {
 			}
 		}
 	}
+	// larger batches / class counts with generic values (thresholds beyond 4)
+	for _, cf := range []cfg{{"MSE", []int{5}}, {"MSE", []int{33}}, {"BCE", []int{7}}, {"BCE", []int{64}}, {"CE", []int{5, 4}}, {"CE", []int{2, 9}}, {"CE", []int{33, 2}}} {
+		for vi := 0; vi < 3; vi++ {
+			cf, vi := cf, vi
+			c.Case(fmt.Sprintf("%s/%v/generic%d", cf.kind, cf.shape, vi), true, func() core.Verdict {
+				p := enum.Generic(cf.shape, uint64(160+vi), 0.05, 0.95, false)
+				t := enum.Generic(cf.shape, uint64(170+vi), 0.05, 0.95, false)
+				if vi == 2 { // some predictions and targets outside [0,1]
+					for i := range p.V {
+						if i%3 == 0 {
+							p.V[i] = 1.5 + p.V[i]
+							t.V[i] = -t.V[i]
+						}
+					}
+				}
+				return c12Case(cf.kind, p, t)
+			})
+		}
+	}
 	reuseLosses(c, false)
 }
 
@@ -303,6 +322,7 @@ func checkC14(c *core.Ctx) {
 	} else {
 		shapes = enum.Shapes(4, []int{1, 2, 3})
 	}
+	shapes = append(shapes, []int{5}, []int{33}, []int{2, 7}, []int{8, 2}, []int{4, 5, 2})
 	for _, s := range shapes {
 		for _, a := range actConfigs(len(s)) {
 			s, a := s, a
